@@ -27,7 +27,10 @@ def run_property(prop, tier, seed, repo=None, out=sys.stdout, eng=None,
             ctx.record('checker_selftest', extra)
         eng.base_counts(ctx)
         mod = importlib.import_module('h2verif.rules.%s' % prop.lower())
+        from .paths import Interp
+        p0 = Interp.paths_used
         mod.run(ctx, eng)
+        ctx.record('paths_examined', Interp.paths_used - p0)
         from . import extlib
         for n in extlib.notes:
             ctx.note(n)
